@@ -23,7 +23,48 @@ BOUNDED_ONLY = {"covg_fn_generator": "Python set algebra over a list indexed by 
                 "oxs": "min-convolution of six XS functions: feasibility queries go unknown (quick tier)"}
 
 
-def native_all(run, ns, seeds):
+def fresh_references(ns, seeds):
+    """'Identically seeded calls return identical games' - whatever the process did before.  Each (key, n, seed) is
+    computed in a fork()ed child of the still pristine parent (no generator has been called natively yet); native_all
+    later compares what the parent returns after the whole registry has been exercised in it."""
+    import os
+    import pickle
+    import numpy as np
+    from pyvc.mode import native_pkg
+    P = native_pkg()
+    gens = P.mod("generators").GENERATORS
+    ref = {}
+    for key in sorted(gens):
+        if key == "convex" or GS.ignores_rng(key):
+            continue
+        for n in ns:
+            for seed in seeds:
+                r, w = os.pipe()
+                pid = os.fork()
+                if pid == 0:
+                    try:
+                        os.close(r)
+                        try:
+                            vals = np.array(gens[key](n, np.random.default_rng(seed)).get_values(), copy=True)
+                            payload = pickle.dumps(vals)
+                        except BaseException as e:
+                            payload = pickle.dumps(f"{type(e).__name__}: {e}")
+                        with os.fdopen(w, "wb") as f:
+                            f.write(payload)
+                    finally:
+                        os._exit(0)
+                os.close(w)
+                with os.fdopen(r, "rb") as f:
+                    data = f.read()
+                os.waitpid(pid, 0)
+                try:
+                    ref[key, n, seed] = pickle.loads(data)
+                except Exception:
+                    pass
+    return ref
+
+
+def native_all(run, ns, seeds, fresh=None):
     """Bounded: the real registry, every key except 'convex': full contract incl. determinism by re-seeding."""
     import numpy as np
     from pyvc.mode import native_pkg
@@ -31,6 +72,7 @@ def native_all(run, ns, seeds):
     gens = P.mod("generators").GENERATORS
     gp = P.mod("game_properties")
     rows = []
+    fresh = fresh or {}
     for key in sorted(gens):
         if key == "convex":
             continue
@@ -60,6 +102,10 @@ def native_all(run, ns, seeds):
                         g2 = gens[key](n, np.random.default_rng(seed))
                         if not np.array_equal(np.asarray(g2.get_values()), vals):
                             problems.append("deterministic")
+                        want = fresh.get((key, n, seed))
+                        if isinstance(want, np.ndarray) and not np.array_equal(want, vals):
+                            problems.insert(0, "deterministic_across_histories (a fresh process returns a different game for this key, "
+                                               "player count and seed than this process does after other generators have been used)")
                 except Exception as e:
                     problems.append(f"raises-nothing ({type(e).__name__}: {e})")
                 if problems:
@@ -74,6 +120,8 @@ def native_all(run, ns, seeds):
 
 
 def main(run):
+    # before anything is called natively in this process
+    fresh = fresh_references((3, 4, 5), range(run.seed, run.seed + 2))
     pkg = GS.generator_package()
     run.pkg = pkg
     run.allow_pruned = True       # rejection-sampling loops (factory_cheerleader) are explored up to 3 re-draws
@@ -106,7 +154,7 @@ def main(run):
                                                                      [{"seed": s} for s in range(200)], bound="200 seeds")))
     run.discharge()
     quick = run.tier == "quick"
-    rows = native_all(run, (3, 4, 5, 6) if quick else (3, 4, 5, 6, 7, 8), range(run.seed, run.seed + (4 if quick else 40)))
+    rows = native_all(run, (3, 4, 5, 6) if quick else (3, 4, 5, 6, 7, 8), range(run.seed, run.seed + (4 if quick else 40)), fresh)
     run.bounded.append({"label": "the real registry (all keys but 'convex')", "rows": rows,
                         "bound": "n=3..6 (8 thorough) x seeded generators; class via the library's own predicates; determinism by re-seeding",
                         "bounded_only_keys": BOUNDED_ONLY})
